@@ -809,11 +809,25 @@ func (e *liveEnv) liveCancel(r *h.Run, rng *h.Rng, fam, kind, proto string, h2 b
 	// half of the contexts are ended WITH A CAUSE (context.WithCancelCause / WithTimeoutCause):
 	// Err() is still Canceled / DeadlineExceeded, but transports may report the cause instead
 	withCause := rng.Bool()
+	// the cause itself may look like something else: it may wrap the OTHER context error (an
+	// upstream's timeout passed on as the reason of a cancellation), be a coded error, or wrap io.EOF
+	causeKind := rng.Intn(4)
+	causeFor := func(other error) error {
+		switch causeKind {
+		case 1:
+			return fmt.Errorf("upstream: %w", other)
+		case 2:
+			return connect.NewError(connect.CodeAborted, errors.New("superseded"))
+		case 3:
+			return fmt.Errorf("peer went away: %w", io.EOF)
+		}
+		return errors.New("caller gave up / budget spent")
+	}
 	mk := func(d time.Duration) {
 		if deadline {
 			if ctx == nil {
 				if withCause {
-					ctx, cancel = context.WithTimeoutCause(context.Background(), d, errors.New("budget spent"))
+					ctx, cancel = context.WithTimeoutCause(context.Background(), d, causeFor(context.Canceled))
 				} else {
 					ctx, cancel = context.WithTimeout(context.Background(), d)
 				}
@@ -821,7 +835,7 @@ func (e *liveEnv) liveCancel(r *h.Run, rng *h.Rng, fam, kind, proto string, h2 b
 			}
 		} else if withCause {
 			c2, cancelCause := context.WithCancelCause(context.Background())
-			ctx, cancel = c2, func() { cancelCause(errors.New("caller gave up")) }
+			ctx, cancel = c2, func() { cancelCause(causeFor(context.DeadlineExceeded)) }
 			end = cancel
 		} else {
 			ctx, cancel = context.WithCancel(context.Background())
@@ -829,7 +843,7 @@ func (e *liveEnv) liveCancel(r *h.Run, rng *h.Rng, fam, kind, proto string, h2 b
 		}
 	}
 	if withCause {
-		c.log = append(c.log, "[the context is ended with a cause]")
+		c.log = append(c.log, "[the context is ended with a cause: "+[]string{"a plain error", "an error wrapping the OTHER context error", "a *connect.Error coded aborted", "an error wrapping io.EOF"}[causeKind]+"]")
 	}
 	// time from creating the context to the instant: operations before the
 	// instant take well under 150ms
